@@ -7,6 +7,9 @@ lemmas are in `Proofs/C03{Bpc,Ceil,Gain}.lean`.
 import Earverif.Proofs.C03Gain
 import Earverif.Proofs.C02Render
 import Earverif.Proofs.C02RenderTS
+import Earverif.Proofs.C02OverlapSave
+import Earverif.Proofs.C02Trace
+import Earverif.Proofs.C03Linear
 namespace Earverif.Timeline
 open Earverif.Stream Earverif.RenderSpec
 
@@ -118,7 +121,9 @@ theorem C03_silence_outside_blocks (sr : Nat) (tl : List (SpecBlock V)) (s : Int
 
 omit [LawfulRMod V] in
 /-- **`C03_sum_of_items_linear`** (two channels sharing the output rows, as in `ObjectRenderer.render`): the
-second channel adds to what the first produced; row `s` ends up as `o + x_a·g_a + x_b·g_b`. -/
+second channel adds to what the first produced; row `s` ends up as `o + x_a·g_a + x_b·g_b`.  (Component-level identity;
+the clause "exact sum over items, linear in the input audio" for whole sessions is `C03_render_formula(_os)` — every
+term is a `sumV` over the items — together with `C03_linear_in_input` below.) -/
 theorem C03_sum_of_items_linear (ga gb : Nat → V) (xa xb : List Rat) (os : List V) (s : Nat) (a b : Rat) (o : V)
     (ha : xa[s]? = some a) (hb : xb[s]? = some b) (ho : os[s]? = some o) :
     (mapRows (fun j x o => o + RMod.smul x (gb j)) xb (mapRows (fun j x o => o + RMod.smul x (ga j)) xa os))[s]? =
@@ -160,6 +165,77 @@ theorem C03_render_formula (c : Cfg V) (objs : List (ObjItem V)) (dss : List (Ds
   intro s hs
   simp only [RenderSpec.out, List.getElem?_map, List.getElem?_range hs, Option.map_some]
   rfl
+
+/-- **`C03_render_formula_os`** — `C03_render_formula` for the renderer with the partitioned overlap-save FFT convolver
+inside `ObjectRenderer` (`renderAllOS`, `Model/OverlapSave.lean`; via `render_refines_spec_os`), for a non-empty
+decorrelation filter: in particular the diffuse term of every output sample is `specDiffuse`, the decorrelation FIR
+with its group delay compensated (`C03_diffuse_group_delay`), although the code computes it block-wise by circular
+convolutions of length `2·block_size` behind a `block_size` adapter delay. -/
+theorem C03_render_formula_os (c : Cfg V) (objs : List (ObjItem V)) (dss : List (DsItem V)) (hoas : List (HoaItem V))
+    (hok : SessionWF c objs dss hoas) (parts : List (List (List Rat))) (_hin : InputOK c parts.flatten) :
+    ∃ out, renderAllOS c objs dss hoas parts = .ok out ∧ out.length = parts.flatten.length ∧
+      ∀ s, s < parts.flatten.length → out[s]? =
+        some ((((objAt c.sr objs parts.flatten s).1 + specDiffuse c objs parts.flatten s) +
+          dsPart c dss parts.flatten s) + hoaPart c hoas parts.flatten s) := by
+  rw [renderAllOS_eq c hok.ok.block_size_pos hok.taps_ne]
+  exact C03_render_formula c objs dss hoas hok.ok parts
+
+/-! #### linear in the input audio -/
+
+omit [RMod V] [LawfulRMod V] in
+theorem inputOK_of_shape (c : Cfg V) (x y : List (List Rat)) (h : SameShape c.n_in x y) :
+    InputOK c x ∧ InputOK c y ∧ InputOK c (addX x y) := by
+  refine ⟨h.wx, h.wy, ?_⟩
+  intro fr hfr
+  obtain ⟨i, hi, rfl⟩ := List.getElem_of_mem hfr
+  simp only [addX, List.length_zipWith] at hi
+  simp only [addX, List.getElem_zipWith, List.length_zipWith]
+  rw [h.wx _ (List.getElem_mem (by omega)), h.wy _ (List.getElem_mem (by omega)), Nat.min_self]
+
+omit [RMod V] [LawfulRMod V] in
+theorem inputOK_smulX (c : Cfg V) (a : Rat) (x : List (List Rat)) (h : InputOK c x) : InputOK c (smulX a x) := by
+  intro fr hfr
+  simp only [smulX, List.mem_map] at hfr
+  obtain ⟨fr0, h0, rfl⟩ := hfr
+  rw [List.length_map]; exact h fr0 h0
+
+/-- The whole specified output is additive / homogeneous in the input (`outAt_add`, `outAt_smul` at every sample). -/
+theorem out_add (c : Cfg V) (objs : List (ObjItem V)) (dss : List (DsItem V)) (hoas : List (HoaItem V))
+    (x y : List (List Rat)) (h : SameShape c.n_in x y) :
+    RenderSpec.out c objs dss hoas (addX x y) =
+      List.zipWith (· + ·) (RenderSpec.out c objs dss hoas x) (RenderSpec.out c objs dss hoas y) := by
+  have hl : (addX x y).length = x.length := by simp only [addX, List.length_zipWith]; have := h.len; omega
+  simp only [RenderSpec.out, hl, ← h.len]
+  rw [List.zipWith_map_left, List.zipWith_map_right, List.zipWith_self]
+  apply List.map_congr_left
+  intro s _
+  exact outAt_add c objs dss hoas x y h s
+
+theorem out_smul (c : Cfg V) (objs : List (ObjItem V)) (dss : List (DsItem V)) (hoas : List (HoaItem V))
+    (a : Rat) (x : List (List Rat)) :
+    RenderSpec.out c objs dss hoas (smulX a x) = (RenderSpec.out c objs dss hoas x).map (RMod.smul a) := by
+  simp only [RenderSpec.out, smulX, List.length_map, List.map_map]
+  apply List.map_congr_left
+  intro s _
+  exact outAt_smul c objs dss hoas a x s
+
+/-- **`C03_linear_in_input`** — "the output is the exact sum over items, linear in the input audio", for the renderer
+model with the overlap-save convolver and ANY blockings: with the same items, rendering the sum of two inputs of the
+same shape (in any blocking) gives the frame-wise sum of the two renderings (each in any blocking), and rendering `a·x`
+gives `a` times the rendering of `x`.  (From `outAt_add`/`outAt_smul` on the specification through
+`render_refines_spec_os`.) -/
+theorem C03_linear_in_input (c : Cfg V) (objs : List (ObjItem V)) (dss : List (DsItem V)) (hoas : List (HoaItem V))
+    (hok : SessionWF c objs dss hoas) (px py pxy pa : List (List (List Rat))) (a : Rat)
+    (hshape : SameShape c.n_in px.flatten py.flatten) (hsum : pxy.flatten = addX px.flatten py.flatten)
+    (hscale : pa.flatten = smulX a px.flatten) :
+    ∃ ox oy, renderAllOS c objs dss hoas px = .ok ox ∧ renderAllOS c objs dss hoas py = .ok oy ∧
+      renderAllOS c objs dss hoas pxy = .ok (List.zipWith (· + ·) ox oy) ∧
+      renderAllOS c objs dss hoas pa = .ok (ox.map (RMod.smul a)) := by
+  obtain ⟨hx, hy, hxy⟩ := inputOK_of_shape c _ _ hshape
+  refine ⟨_, _, render_refines_spec_os c objs dss hoas hok px hx, render_refines_spec_os c objs dss hoas hok py hy,
+    ?_, ?_⟩
+  · rw [render_refines_spec_os c objs dss hoas hok pxy (hsum ▸ hxy), hsum, out_add c objs dss hoas _ _ hshape]
+  · rw [render_refines_spec_os c objs dss hoas hok pa (hscale ▸ inputOK_smulX c a _ hx), hscale, out_smul]
 
 omit [LawfulRMod V] in
 /-- **`C03_direct_zero_latency`** — the direct part of Objects, the DirectSpeakers part and the HOA part of output
@@ -277,6 +353,29 @@ example : renderAll exCfg exObjs exDss []
       [[1], [2], [3], [4], [5], [6], [7], [8], [9], [10], [11], [12], [13], [14]]) :=
   render_refines_spec exCfg exObjs exDss [] exSession_ok _
 
+open Earverif.Renderer in
+/-- Non-vacuity of `SessionWF`: the example session is inside the stated quantifier (track 0 of a 1-channel input,
+three taps). -/
+theorem exSession_wf : SessionWF exCfg exObjs exDss [] where
+  ok := exSession_ok
+  index := ⟨by decide, by decide, (by intro it hit; cases hit), (by intro it hit; cases hit)⟩
+  taps_ne := by decide
+
+open Earverif.Renderer in
+/-- The same session through the model with the overlap-save convolver: an instance of `render_refines_spec_os` /
+`C03_render_formula_os` (the 14 one-sample frames satisfy `InputOK`). -/
+example : renderAllOS exCfg exObjs exDss []
+      [[[1], [2], [3]], [], [[4]], [[5], [6], [7], [8], [9], [10], [11], [12], [13], [14]]] =
+    .ok (RenderSpec.out exCfg exObjs exDss []
+      [[1], [2], [3], [4], [5], [6], [7], [8], [9], [10], [11], [12], [13], [14]]) :=
+  render_refines_spec_os exCfg exObjs exDss [] exSession_wf _ (by unfold InputOK; decide)
+
+open Earverif.Renderer in
+/-- Non-vacuity of `C03_linear_in_input`: two inputs of shape `(3, 1)`, their sum and a multiple. -/
+example : SameShape exCfg.n_in [[1], [2], [3]] [[10], [0], [-5]] ∧
+    addX [[1], [2], [3]] [[10], [0], [-5]] = [[11], [2], [-2]] ∧ smulX 3 [[1], [2], [3]] = [[3], [6], [9]] :=
+  ⟨⟨rfl, by decide, by decide⟩, by decide +kernel, by decide +kernel⟩
+
 end Earverif.Timeline
 
 /-! ### With track processors (`Model/RendererTS.lean`) -/
@@ -303,6 +402,18 @@ theorem C03_render_formula_ts (c : Cfg V) (objs : List (ObjItemTS V)) (dss : Lis
   intro s hs
   simp only [outTS, List.getElem?_map, List.getElem?_range hs, Option.map_some]
   rfl
+
+/-- **`C03_render_formula_ts_os`** — `C03_render_formula_ts` for the renderer with track processors AND the partitioned
+overlap-save convolver (`renderAllTSOS`), for a non-empty decorrelation filter. -/
+theorem C03_render_formula_ts_os (c : Cfg V) (objs : List (ObjItemTS V)) (dss : List (DsItemTS V))
+    (hoas : List (HoaItemTS V)) (hok : SessionWFTS c objs dss hoas) (parts : List (List (List Rat)))
+    (_hin : InputOK c parts.flatten) :
+    ∃ out, renderAllTSOS c objs dss hoas parts = .ok out ∧ out.length = parts.flatten.length ∧
+      ∀ s, s < parts.flatten.length → out[s]? =
+        some ((((objAtTS c objs parts.flatten s).1 + diffuseAtTS c objs parts.flatten s) +
+          dsAtTS c dss parts.flatten s) + hoaAtTS c hoas parts.flatten s) := by
+  rw [renderAllTSOS_eq c hok.ok.block_size_pos hok.taps_ne]
+  exact C03_render_formula_ts c objs dss hoas hok.ok parts
 
 end
 
@@ -402,6 +513,24 @@ example : outTS exCfgTS exObjsTS exDssTS exHoasTS exX =
 example : renderAllTS exCfgTS exObjsTS exDssTS exHoasTS [exX.take 3, [], (exX.drop 3).take 1, exX.drop 4] =
     .ok (outTS exCfgTS exObjsTS exDssTS exHoasTS exX) :=
   render_eq_outTS exCfgTS exObjsTS exDssTS exHoasTS exSessionTS_ok _
+
+/-- Non-vacuity of `SessionWFTS`: the HOA item has two specs and decode matrices with two columns; three taps. -/
+theorem exSessionTS_wf : SessionWFTS exCfgTS exObjsTS exDssTS exHoasTS where
+  ok := exSessionTS_ok
+  hoa_gains := by
+    intro it hit b hb
+    simp only [exHoasTS, List.mem_cons, List.not_mem_nil, or_false] at hit
+    subst hit
+    simp only [List.mem_cons, List.not_mem_nil, or_false] at hb
+    subst hb
+    rfl
+  taps_ne := by decide
+
+/-- The same through the model with the overlap-save convolver: an instance of `render_eq_outTS_os` (the 14 two-sample
+frames satisfy `InputOK`). -/
+example : renderAllTSOS exCfgTS exObjsTS exDssTS exHoasTS [exX.take 3, [], (exX.drop 3).take 1, exX.drop 4] =
+    .ok (outTS exCfgTS exObjsTS exDssTS exHoasTS exX) :=
+  render_eq_outTS_os exCfgTS exObjsTS exDssTS exHoasTS exSessionTS_wf _ (by unfold InputOK; decide)
 
 end Earverif.RendererTS
 
